@@ -363,6 +363,39 @@ func VerifC01Cursor() {
 	zzverif.Reach("end")
 }
 
+// VerifC01Pointer: the mouse pointer shape requested by the application is the shape the
+// terminal shows after every frame, over `frames` frames each of which may change the shape
+// (default / clickable / text), may change a cell, and is flushed by Render or Refresh.
+func VerifC01Pointer() {
+	vx, con := verifRenderVaxis(2, 1)
+	vx.caps.synchronizedUpdate = zzverif.Bool("cap.sync")
+	t := newRefTerm(2, 1)
+	t.visible = 0
+	want := ""
+	frames := zzverif.Param("frames")
+	for f := 0; f < frames; f++ {
+		win := vx.Window()
+		if zzverif.Bool("draw") {
+			win.SetCell(f%2, 0, Cell{Character: Character{Grapheme: "a", Width: 1}})
+		}
+		switch zzverif.Choose("shape", 4) {
+		case 1:
+			vx.SetMouseShape(MouseShapeDefault)
+			want = "default"
+		case 2:
+			vx.SetMouseShape(MouseShapeClickable)
+			want = "pointer"
+		case 3:
+			vx.SetMouseShape(MouseShapeTextInput)
+			want = "text"
+		}
+		verifFlush(vx, con, t, f == 0 || zzverif.Bool("refresh"))
+		verifCheckFrame(t, vx, "frame")
+		zzverif.Assert(t.pointer == want, "pointer-shape-as-requested")
+	}
+	zzverif.Reach("end")
+}
+
 var verifLinks = []string{"", "http://a", "http://b"}
 
 // VerifC01Links: hyperlinks on a 1x4 screen: each cell of frame 2 carries a free link
